@@ -713,6 +713,9 @@ PROPS["C18"]["rule"] = PROPS["C18"].get("rule", "") + (" kmux (client side): con
 PROPS["C15"]["level_text"] += (" The errno of a failing backend call is what the client gets (Session/Errors.lean): a Twrite / Tread whose WriteAt / ReadAt "
     "fails is answered Rlerror(e) - whatever count the backend reports next to the error - with that single call made, the fid still bound and its "
     "reference count back where it was (write_error_is_reported, read_error_is_reported).")
+PROPS["C09"]["level_text"] += (" A walk advances only through directories (walk_stops_at_non_directory, Session/Closes.lean): at any iteration of the "
+    "component loop - the first or after any number of steps - a node the backend did not report as a directory ends the walk with EINVAL, and the only "
+    "backend calls still made are Close calls of dropped references.")
 PROPS["C10"]["level_text"] += (" Recycled response objects (Conc/RespPool.lean, after defect D20): over all clients of the process and every "
     "interleaving of calls starting, failing to send, being answered, connections failing and calls returning, a pooled response is referenced "
     "by no pending map and its channel is empty, no response serves two calls, and handleOne never blocks on a done channel while holding the "
